@@ -126,6 +126,14 @@ type resToken struct {
 }
 
 // Static resource types for the generic resource API routes.
+// resource types that are NOT registered when a world is created: first seen through a by-type lookup
+type resL0 struct{ Token int }
+type resL1 struct{ Token int }
+type resL2 struct{ Token int }
+type resL3 struct{ Token int }
+type resL4 struct{ Token int }
+type resL5 struct{ Token int }
+
 type resT0 struct{ Token int }
 type resT1 struct{ Token int }
 type resT2 struct{ Token int }
@@ -161,6 +169,9 @@ type World struct {
 	subs        []LSpec
 	gfs         []*gfState
 	gexSeq      int
+	lateDone    bool // generic worlds: component 13 (gc13) has been registered
+	gexKeep     map[int]*generic.Exchange
+	lazyRes     int // number of lazily registered resource types used so far
 	posExtra    func(q *ecs.Query) map[string]interface{}
 	valSeq      int
 	lastDump    *ecs.EntityDump
@@ -324,6 +335,8 @@ func NewWorld(h Header) *World {
 			x.comps[i] = &compInfo{id: id, num: i, kind: k, tp: gcComps[i], isRel: kindIsRel(k), sized: kindSized(k)}
 			x.compNums = append(x.compNums, i)
 		}
+		// component 13: declared (the specification knows it from the start), registered on first ID-based use
+		x.comps[lateComp] = &compInfo{id: idTable[lateComp], num: lateComp, kind: "u64", tp: reflect.TypeOf(gc13{}), isRel: false, sized: true}
 		h.Comps = nil
 	}
 	specs := append([]CompSpec{}, h.Comps...)
@@ -565,6 +578,9 @@ func (x *World) observeEntity(e ecs.Entity) map[string]interface{} {
 func (x *World) maxComp() int {
 	if len(x.compNums) == 0 {
 		return -1
+	}
+	if x.h.Generic && x.lateDone {
+		return lateComp
 	}
 	return x.compNums[len(x.compNums)-1]
 }
